@@ -775,19 +775,22 @@ class ContextStateTransaction(_TransactionBase):
                   adjust_version_counter: bool = True):
         """Insert or update a context state in mdib."""
         for handle in modified_handles:
+            # check all handles before writing any of them
+            state_container = entity.states.get(handle)
+            if state_container is None:
+                if self._mdib.context_states.handle.get_one(handle, allow_none=True) is None:
+                    msg = f'invalid handle {handle}!'
+                    raise KeyError(msg)
+            elif not state_container.is_context_state:
+                raise ApiUsageError('Transaction only handles context states!')
+        for handle in modified_handles:
             state_container = entity.states.get(handle)
             old_state = self._mdib.context_states.handle.get_one(handle, allow_none=True)
             if state_container is None:
                 # a deleted state : this cannot be communicated via notification.
                 # delete in internal_entity, and that is all
-                if old_state is not None:
-                    self._state_updates[handle] = TransactionItem(old=old_state, new=None)
-                else:
-                    msg = f'invalid handle {handle}!'
-                    raise KeyError(msg)
+                self._state_updates[handle] = TransactionItem(old=old_state, new=None)
                 continue
-            if not state_container.is_context_state:
-                raise ApiUsageError('Transaction only handles context states!')
 
             tmp = copy.deepcopy(state_container)
 
